@@ -1,7 +1,7 @@
 SPECIFICATION Spec
 CONSTANTS
-  MaxSlots = 2
-  OnlyEq = FALSE
+  MaxSlots = 3
+  OnlyEq = TRUE
 INVARIANT SigsScoped
 INVARIANT InferRecovers
 INVARIANT InferMidTotal
